@@ -42,11 +42,12 @@ def id_menu(w, sym, level):
     """binding options for one identifier: None = absent"""
     p = g.ID(sym, w)
     consts = [g.I(w, v) for v in ((0, 1, 1 << (w - 1), irsem.mask(w), 3) if w > 1 else (0, 1))]
-    syms = [p, g.OP('+', p, g.I(w, 1))] if w > 1 else [p]
+    # symbolic bindings: a fresh symbol, an expression over it, and a conditional between two constants (the form flags take)
+    syms = [p, g.OP('+', p, g.I(w, 1)), g.COND(p, g.I(w, 1), g.I(w, 2))] if w > 1 else [p, g.COND(p, g.I(1, 1), g.I(1, 0))]
     if level == 'const':
         return consts
     if level == 'small':
-        return [None, consts[1], consts[-2] if w > 1 else consts[0], p]
+        return [None, consts[1], consts[-2] if w > 1 else consts[0], p, syms[-1]]
     return [None] + consts + syms
 
 
@@ -72,12 +73,26 @@ def lifter_trees(w):
     if w == 8:
         out += [g.OP('div8', a, b, g.I(8, 7)), g.OP('rem8', a, b, g.I(8, 7))]
     out += [g.OP('!', a), g.OP('<', a, b)]
+    # concatenations the lifter builds: sub-register writes, flag bytes (lahf/pushf), carry-in extension
+    if 2 * w <= 64 and w > 1:
+        out += [g.CO((a, 0, w), (b, w, 2 * w)), g.CO((b, 0, w), (a, w, 2 * w)), g.CO((a, 0, w), (g.I(w, 0), w, 2 * w)),
+                g.CO((g.I(w, 3), 0, w), (a, w, 2 * w))]
+    if w == 8:
+        out += [g.CO((a, 0, 8), (g.I(8, 0x5a), 8, 16), (b, 16, 24), (g.I(8, 1), 24, 32)),
+                g.CO((g.I(8, 0x5a), 0, 8), (a, 8, 16), (g.I(16, 0x1234), 16, 32))]
+    if w == 1:
+        out += [g.CO((a, 0, 1), (g.I(1, 1), 1, 2), (b, 2, 3), (g.I(1, 0), 3, 4), (a, 4, 5), (g.I(1, 0), 5, 6), (b, 6, 7), (a, 7, 8)),
+                g.CO((a, 0, 1), (g.I(1, 1), 1, 2), (g.I(1, 1), 2, 3), (g.I(1, 0), 3, 4), (g.I(1, 0), 4, 5), (g.I(1, 0), 5, 6), (g.I(1, 1), 6, 7), (g.I(1, 1), 7, 8)),
+                g.CO((g.I(1, 1), 0, 1), (a, 1, 2), (g.I(1, 1), 2, 3), (g.I(1, 0), 3, 4), (g.I(1, 0), 4, 5), (g.I(1, 0), 5, 6), (g.I(1, 1), 6, 7), (g.I(1, 1), 7, 8)),
+                g.CO((a, 0, 1), (g.SL(g.I(32, 0), 1, 32), 1, 32)), g.CO((b, 0, 1), (a, 1, 2), (g.I(1, 1), 2, 3), (g.SL(g.I(8, 0xf0), 3, 8), 3, 8))]
     return out
 
 
 def families(tier):
     F = []
     ws = (8, 32) if tier == 'quick' else g.WIDTHS
+    if tier == 'quick':
+        F.append(('mixed', 'L', 1, 'full'))
     for w in ws:
         F.append(('mixed', 'E1', w, 'small' if tier == 'quick' else 'full'))
         F.append(('const', 'E1', w, 'const'))
